@@ -21,6 +21,7 @@ OPEN_FRAGS = [
     "$abc", "$\u00e9t1.2", "'a'", "'a''b'", "\"s\"", "\"a\"\"b\"", "'1f'x", "\"1F\"X", "'1,f0'x",
     "'1g'x", "'x'n", "'01jan2020'd", "'1'dt", "'1'DT", "'1't", "'01'b", "and", "or", "not", "eq",
     "ne", "lt", "le", "gt", "ge", "in", "AND", "Ne", "\ufeff", "\x0b", "\x0c", "\x00", "\x7f",
+    "a_name_of_thirty_two_characters_", "correspondingx", "age", "/*/", "10x", "1e5x", "9X", "\u00e9\u00e9", "\u20ac",
 ]
 
 MACRO_FRAGS = [
@@ -37,6 +38,8 @@ MACRO_FRAGS = [
     "%lbl :", "%*", "%* c;", "&v", "&&v", "&&&v", "&v.", "&v..", "&&v&i", "&&v&i..", "&", "%'",
     "%\"", "%%", "%(", "%)", "%=", "%~", "%^", "%~=", "readonly", "/ ", "a=", "=1", ",b", "%e",
     "%\u00f1", "%LET", "%Do", "%EVAL(", "%Str(", "%str", "%eval", "%scan", "%sysfunc",
+    "%number_of_observations", "%abcdefghijklmno", "%abcdefghijklmn(", "%a_name_of_thirty_two_characters_(", "%\u0442\u0435\u0441\u0442(",
+    "%sysmstoreclearx", "&a_name_of_thirty_two_characters_.", "%age", "%one eq",
 ]
 
 EVAL_FRAGS = [
@@ -351,7 +354,9 @@ ML_TEMPLATES = [
     "%do i=1{}%to 2{}%by 1;", "%do{}%while(a{});", "%do %until({}a);", "%end{};",
     "&a{}.b", "&&a{}&b", "&a.{}", "%lbl{}:", "a %lbl{}: b", "1{}e5", "$f{}5.", "a={}*b;", "a;{}*c{};", "x{};;{};",
     "%local a{}b;", "%global{}a;", "%goto{}l;", "%copy m{}/{}s;", "%syscall f({}a{});", "%include{}f;", "%sysexec ls{}-l;",
-    "%input{}a;", "%window w{};", "%then{}", "%else{}a;", "﻿{}a", "é{}é", "\U0001F525{}",
+    "%input{}a;", "%window w{};", "%then{}", "%else{}a;",
+    "%macro m;{}* a{} %let x=1;{}%put &x;{}%mend;", "%macro m; *{}b %put x;{}", "%macro m;{}*{}{}%m(a);{}%mend;", "%macro m; * a{}b;{}* c %m{};",
+    "%macro m; %if 1 %then * a{} %let b=1;;", "%macro m;{}* 'q{}' %x;", "%macro m; a=1;*{}c{}%do;", "* a{}%let x=1;", "%macro m;*{}", "﻿{}a", "é{}é", "\U0001F525{}",
 ]
 ML_BREAKS = ["\n", "\n", "\r\n", "\n\n", "\n \n", " \n", "\n\t", "\r", ""]
 
